@@ -423,6 +423,85 @@ func (in *inliner) expandStmt(h *helperInfo, call *ast.CallExpr, targets []ast.E
 	// bind parameters through fresh copies of the declaring identifiers
 	var pre []ast.Stmt
 	ids, args := in.paramBindings(h, call)
+	// a parameter that the helper never assigns and whose argument is a plain variable or a
+	// field path is replaced by the argument itself (no `p := arg` in between)
+	assigned := map[types.Object]bool{}
+	ast.Inspect(body, func(n ast.Node) bool {
+		switch x := n.(type) {
+		case *ast.AssignStmt:
+			for _, l := range x.Lhs {
+				if o := objOf(in.info, l); o != nil {
+					assigned[o] = true
+				}
+			}
+		case *ast.IncDecStmt:
+			if o := objOf(in.info, x.X); o != nil {
+				assigned[o] = true
+			}
+		case *ast.UnaryExpr:
+			if x.Op == token.AND {
+				if o := objOf(in.info, x.X); o != nil {
+					assigned[o] = true
+				}
+			}
+		case *ast.RangeStmt:
+			for _, l := range []ast.Expr{x.Key, x.Value} {
+				if l != nil && x.Tok == token.ASSIGN {
+					if o := objOf(in.info, l); o != nil {
+						assigned[o] = true
+					}
+				}
+			}
+		}
+		return true
+	})
+	plain := func(e ast.Expr) bool {
+		for {
+			switch x := ast.Unparen(e).(type) {
+			case *ast.Ident:
+				return true
+			case *ast.SelectorExpr:
+				e = x.X
+				continue
+			case *ast.BasicLit:
+				return true
+			}
+			return false
+		}
+	}
+	subst := map[types.Object]ast.Expr{}
+	{
+		var ids2 []*ast.Ident
+		var args2 []ast.Expr
+		for i, id := range ids {
+			o := in.info.Defs[id]
+			if o != nil && !assigned[o] && plain(args[i]) {
+				subst[o] = args[i]
+				continue
+			}
+			ids2 = append(ids2, id)
+			args2 = append(args2, args[i])
+		}
+		ids, args = ids2, args2
+	}
+	if len(subst) > 0 {
+		astutil.Apply(body, func(cur *astutil.Cursor) bool {
+			id, ok := cur.Node().(*ast.Ident)
+			if !ok {
+				return true
+			}
+			a, ok := subst[in.info.Uses[id]]
+			if !ok {
+				return true
+			}
+			if _, isSel := cur.Parent().(*ast.SelectorExpr); isSel && cur.Name() == "Sel" {
+				return true
+			}
+			ac, _ := in.copyNode(a)
+			cur.Replace(ac.(ast.Expr))
+			return false
+		}, nil)
+	}
 	for i, id := range ids {
 		nid := &ast.Ident{Name: id.Name, NamePos: call.Pos()}
 		if o := in.info.Defs[id]; o != nil {
@@ -621,6 +700,11 @@ func (in *inliner) rewriteFunc(fd *ast.FuncDecl) {
 					e, ok := cur.Node().(ast.Expr)
 					if !ok {
 						return true
+					}
+					// the right operand of && / || is evaluated conditionally: nothing inside it may be
+					// moved in front of the statement
+					if be, isBin := cur.Parent().(*ast.BinaryExpr); isBin && (be.Op == token.LAND || be.Op == token.LOR) && cur.Name() == "Y" {
+						return false
 					}
 					h, call := in.helperOf(e)
 					if h == nil || h.expr != nil || h.obj.Type().(*types.Signature).Results().Len() != 1 {
